@@ -290,6 +290,22 @@ func Corpus() []CorpusScenario {
 					ing("ns1", "ing2", nil, rule("a.example", pth("/", "svc1")))),
 			},
 		},
+		{
+			// strict-host: a host added later borrows the root backend of the default host, a
+			// backend that is not built again; its new path has another per path config, so the
+			// backend now needs path ids and their maps (the update failed with a nil PathsMap)
+			Name: "18-strict-host-borrowed-path-needs-path-ids",
+			Opt:  Opt{},
+			H: [][]pipeline.Change{
+				creates(pglobal(map[string]string{"strict-host": "true"}),
+					svc("ns1", "svc2"), EndpointsRef("ns1", "svc2", "http", 8080, []string{"10.1.1.1"}, nil, 0),
+					svc("ns1", "svc3"), EndpointsRef("ns1", "svc3", "http", 8080, []string{"10.1.2.1"}, nil, 0),
+					ingDefault(ing("ns1", "ing1", map[string]string{"whitelist-source-range": "10.0.0.0/8"}), "svc2")),
+				creates(ing("ns1", "ing2", nil, rule("b.example", pth("/app", "svc3")))),
+				creates(ing("ns1", "ing3", nil, rule("a.example", pth("/app", "svc3")))),
+				{{Op: pipeline.Delete, Obj: ing("ns1", "ing2", nil)}},
+			},
+		},
 	}
 }
 
